@@ -6,7 +6,8 @@
 From Verif Require Import Css.Sel Css.SelSpec Css.SelWitness Css.SelProofs.
 From Verif Require Import Css.SelParse Css.SelParseProofs Css.SelParseNormal Css.SelPrint Css.SelRoundtrip Css.SelRoundtripProofs.
 From Verif Require Import Css.SelProofsMore.
-From Coq Require Import ZArith NArith List.
+From Verif Require Import Css.SelRoundtripGeneral Css.SelRoundtripGeneral2 Css.SelRoundtripGeneral3 Css.SelRoundtripGeneral4 Css.SelRoundtripGeneral5 Css.SelRoundtripGeneral6.
+From Coq Require Import ZArith NArith List Lia.
 Import ListNotations.
 
 (* ---- an+b: Go's truncating % and / decide "exists n >= 0, i = a*n + b" for all integers *)
@@ -169,3 +170,61 @@ Print Assumptions C05_parse_print_roundtrip_partial.
 
 Example C05_roundtrip_family_size : N.of_nat (length samples) = 20526%N.
 Proof. vm_compute. reflexivity. Qed.
+
+(* ---- general token round trips (steps towards C05_parse_print_roundtrip_statement): for EVERY byte list x,
+   the text String() writes for a name / identifier / quoted value / An+B, placed after any prefix and before any
+   suffix the token cannot absorb (`stops`: end of input, or a byte that is neither a name byte nor a backslash),
+   is read back by parseName / parseIdentifier / parseString / parseNth as exactly x, ending at the end of the token. *)
+Theorem C05_name_roundtrip : forall (pre x suf : str), x <> [] -> stops suf = true ->
+  parse_name (pre ++ escape x ++ suf) (length pre) = Ok (POk x (length pre + length (escape x))).
+Proof. exact name_roundtrip. Qed.
+Print Assumptions C05_name_roundtrip.
+
+Theorem C05_identifier_roundtrip : forall (pre x suf : str), x <> [] -> stops suf = true ->
+  parse_identifier (pre ++ escape_identifier x ++ suf) (length pre) =
+  Ok (POk x (length pre + length (escape_identifier x))).
+Proof. exact identifier_roundtrip. Qed.
+Print Assumptions C05_identifier_roundtrip.
+
+Theorem C05_string_roundtrip : forall (pre x suf : str),
+  parse_string (pre ++ 34%N :: escape_string x ++ 34%N :: suf) (length pre) =
+  Ok (POk x (length pre + length (escape_string x) + 2)).
+Proof. exact string_roundtrip. Qed.
+Print Assumptions C05_string_roundtrip.
+
+Theorem C05_nth_roundtrip : forall (pre : str) (a b : Z) (suf : str), int_ok a = true -> int_ok b = true ->
+  parse_nth (pre ++ nth_text a b ++ 41%N :: suf) (length pre) =
+  Ok (POk (a, b) (length pre + length (nth_text a b))).
+Proof. exact nth_roundtrip. Qed.
+Print Assumptions C05_nth_roundtrip.
+
+(* the hypotheses are inhabited, with bytes from every escaping class (digit first, control, DEL, special, non-ASCII) *)
+Example C05_identifier_roundtrip_ex :
+  parse_identifier ([46] ++ escape_identifier [49;1;127;45;46;200;97] ++ [32;62])%N 1 =
+  Ok (POk [49;1;127;45;46;200;97]%N (1 + length (escape_identifier [49;1;127;45;46;200;97]%N))).
+Proof. apply (C05_identifier_roundtrip [46%N]); [discriminate|reflexivity]. Qed.
+
+(* ---- general compound round trip: EVERY compound selector c in the parser's normal form (type selector, lone simple
+   selector, or compound of any length with optional pseudo-element; all names / values / An+B arbitrary) whose
+   components are not :is/:not/:has/:haschild (`flat`), printed by String() at position i of any text s and followed by
+   the end of input, a space, a comma or a closing parenthesis (`cend`), is read back by parseSimpleSelectorSequence
+   (p_seq) as exactly c, ending at the end of its text, for every depth fuel above the bound of C05_sel_parse_total.
+   Side condition beyond `normal`: `flat c` (no relative pseudo-class; combinators and selector lists are the
+   remaining part of C05_parse_print_roundtrip_statement). *)
+Theorem C05_parse_print_roundtrip_compound : forall (s : str) (c : sel) (f : nat) (a : bool) (i : nat) (r : str),
+  flat c = true -> normal a c = true -> skipn i s = print_sel c ++ r -> cend r = true ->
+  3 * length (skipn i s) + 3 <= f ->
+  p_seq s f a i = Ok (POk c (i + length (print_sel c))).
+Proof. exact compound_roundtrip_flat. Qed.
+Print Assumptions C05_parse_print_roundtrip_compound.
+
+(* inhabited: a compound with an escaped type name, id starting with a digit, quoted attribute value with a quote and the i flag,
+   An+B with negative a, a plain pseudo-class and a pseudo-element, followed by a child combinator *)
+Example C05_compound_roundtrip_ex :
+  let c := SCompound [STag [97;46;49]%N; SId [49;120]%N; SAttr [107]%N [118;34;119]%N OpIncludes true;
+                      SNth (-3)%Z 2%Z true true; SEmpty] [98;101;102;111;114;101]%N in
+  let s := (print_sel c ++ [32;62;32;121])%N in
+  p_seq s (3 * length s + 3) true 0 = Ok (POk c (0 + length (print_sel c))).
+Proof.
+  intros c s. apply C05_parse_print_roundtrip_compound with (r := [32;62;32;121]%N); reflexivity || (cbn [skipn]; lia).
+Qed.
